@@ -136,11 +136,13 @@ def draw_data(ch, kind, label="A", n_lo=6, n_hi=40, allow_weights=True, n_min=No
                     lab[k] = cl
                     need -= 1
                 k += 1
-        ltype = ch.weighted("w", [("int", 5), ("int-arbitrary", 2), ("str", 2)], "ltype" + label)
+        ltype = ch.weighted("w", [("int", 5), ("int-arbitrary", 2), ("str", 2), ("float", 1)], "ltype" + label)
         if ltype == "int":
             y = lab.astype(numpy.int64)
         elif ltype == "int-arbitrary":
             y = numpy.array([-3, 4, 11])[lab]
+        elif ltype == "float":
+            y = numpy.array([1.0, 2.0, 5.0])[lab]  # float64 storage of integral class labels
         else:
             y = numpy.array(["ant", "bee", "cat"])[lab]
         desc["labels"] = ltype
@@ -153,7 +155,7 @@ def draw_data(ch, kind, label="A", n_lo=6, n_hi=40, allow_weights=True, n_min=No
         desc["as_frame"] = True
     # memory layout / dtype of the caller's arrays: an in-place write or a
     # dtype-dependent path may only exist for some of them
-    layout = ch.weighted("w", [("C", 6), ("F", 1), ("float32", 1), ("view", 1)], "xlayout" + label)
+    layout = ch.weighted("w", [("C", 6), ("F", 1), ("float32", 1), ("view", 1), ("int64", 1)], "xlayout" + label)
     desc["x_layout"] = layout
     if w is not None:
         wkind = ch.weighted("w", [("float64", 4), ("int", 1), ("float32", 1)], "wdtype" + label)
@@ -173,6 +175,12 @@ def draw_data(ch, kind, label="A", n_lo=6, n_hi=40, allow_weights=True, n_min=No
     elif layout == "float32":
         X = X.astype(numpy.float32)
         Xp = Xp.astype(numpy.float32)
+    elif layout == "int64":
+        # count-like features; rows stay pairwise distinct
+        X = numpy.round(X * 8).astype(numpy.int64) * (X.shape[0] + 1) + numpy.arange(X.shape[0])[:, None]
+        Xp = numpy.round(Xp * 8).astype(numpy.int64) * (X.shape[0] + 1)
+        if kind == "nonneg":
+            X, Xp = numpy.abs(X) + 1, numpy.abs(Xp) + 1
     elif layout == "view":
         parent = numpy.full((X.shape[0] * 2, X.shape[1] + 1), 7.25)
         parent[::2, : X.shape[1]] = X
@@ -459,8 +467,9 @@ class SConstraintKMeans(Spec):
             "strategy": ch.choice("w", ["gain", "distance", "weights"], "strategy"),
             "random_state": ch.choice("w", [0, 3, None], "rs"),
             "kmeans0": ch.weighted("w", [(True, 3), (False, 1)], "kmeans0"),
-            "max_iter": ch.choice("w", [100, 7, 20], "max_iter"),
+            "max_iter": ch.choice("w", [100, 7, 20, 3, 5], "max_iter"),
             "copy_x": ch.weighted("w", [(True, 4), (False, 1)], "copy_x"),
+            "balanced_predictions": ch.weighted("w", [(False, 3), (True, 1)], "balanced"),
             "history": ch.weighted("w", [(False, 3), (True, 1)], "history"),
             "learning_rate": ch.choice("w", [1.0, 0.5], "lr"),
         }
@@ -476,6 +485,7 @@ class SConstraintKMeans(Spec):
             copy_x=cfg["copy_x"],
             history=cfg.get("history", False),
             learning_rate=cfg.get("learning_rate", 1.0),
+            balanced_predictions=cfg.get("balanced_predictions", False),
         )
 
     def exempt_input_write(self, cfg):
